@@ -19,11 +19,7 @@ pub fn generate(seed: u64, index: u64, thorough: bool) -> Scenario {
     } else {
         ModelKind::Hand
     };
-    let sizes = if rng.chance(if thorough { 0.3 } else { 0.15 }) {
-        LARGE
-    } else {
-        SMALL
-    };
+    let sizes = pick_sizes(&mut rng, thorough, if thorough { 0.3 } else { 0.15 });
     let parallel = rng.chance(0.3);
     let start = *rng.pick(&[Start::Near, Start::Mid, Start::Far, Start::Exact]);
     let noise = *rng.pick(&[0.0, 1e-3, 5e-2, 0.3]);
